@@ -44,6 +44,7 @@ struct Acc {
     heap_ok: u64,
     mmap_runs: u64,
     interrupted_runs: u64,
+    ml_request_pairs: u64,
     disc: Vec<(String, serde_json::Value)>,
 }
 
@@ -110,6 +111,9 @@ pub fn run(args: &Args) -> ! {
             for mk in [Mk::Toy(LinePath::Fast), Mk::Toy(LinePath::Candidate), Mk::Toy(LinePath::Slow), Mk::Regex] {
                 items.push((cfg, mk));
             }
+            if term == Term::Crlf {
+                items.push((cfg, Mk::RegexCr));
+            }
         }
     }
     let comps: Vec<Vec<Vec<usize>>> = (0..=10).map(compositions).collect();
@@ -124,6 +128,15 @@ pub fn run(args: &Args) -> ! {
             let m = make_matcher(mk, cfg.term);
             let true_multiline = cfg.multi_line && mk == Mk::Toy(LinePath::Slow);
             let mut slice_searcher = build_searcher(&cfg, Strat::Slice);
+            // "whether or not multi-line mode was requested": the same search
+            // without the request is the reference for the request
+            let mut no_ml_searcher = if cfg.multi_line && !true_multiline {
+                let mut c2 = cfg;
+                c2.multi_line = false;
+                Some(build_searcher(&c2, Strat::Slice))
+            } else {
+                None
+            };
             let mut per_item = 0;
             let file_path = scratch_path.join(format!("f{}", ii));
             for (idx, input) in input_sets[&cfg.term].iter().enumerate() {
@@ -136,6 +149,21 @@ pub fn run(args: &Args) -> ! {
                 let reference = refrec.events;
                 if reference.len() > 2 {
                     acc.nontrivial += 1;
+                }
+                if let Some(s2) = no_ml_searcher.as_mut() {
+                    let mut r2 = Rec::new();
+                    let e2 = run_case(s2, &m, Strat::Slice, input, &mut r2);
+                    acc.runs += 1;
+                    acc.ml_request_pairs += 1;
+                    if e2.is_err() || r2.events != reference {
+                        if acc.disc.len() < 300 {
+                            acc.disc.push((
+                                format!("multi-line-request-changes-results | {} | {:?} | {}", cfg.show(), mk, esc(input)),
+                                json!({"kind":"multi-line-request","cfg":cfg_json(&cfg),"matcher":format!("{:?}", mk),"input":esc(input),
+                                       "with_request":show(&reference),"without_request":show(&r2.events)}),
+                            ));
+                        }
+                    }
                 }
                 let mut report = |acc: &mut Acc, what: &str, got: &[Ev], err: &Option<String>, extra: serde_json::Value| {
                     if per_item < 3 && acc.disc.len() < 300 {
@@ -256,6 +284,7 @@ pub fn run(args: &Args) -> ! {
             total.nontrivial += a.nontrivial;
             total.rolled_with_context += a.rolled_with_context;
             total.grew += a.grew;
+            total.ml_request_pairs += a.ml_request_pairs;
             total.heap_errors += a.heap_errors;
             total.heap_ok += a.heap_ok;
             total.mmap_runs += a.mmap_runs;
@@ -275,6 +304,7 @@ pub fn run(args: &Args) -> ! {
     ev.set("configurations_x_matchers", items.len());
     ev.set("inputs_per_terminator", json!(input_sets.iter().map(|(k, v)| (format!("{:?}", k), v.len())).collect::<BTreeMap<_, _>>()));
     ev.set("reader_runs_where_input_exceeds_capacity", total.grew);
+    ev.set("pairs_with_and_without_the_multi_line_request", total.ml_request_pairs);
     ev.set("reader_runs_rolling_with_context", total.rolled_with_context);
     ev.set("heap_limit_runs_ok", total.heap_ok);
     ev.set("heap_limit_runs_alloc_error", total.heap_errors);
@@ -283,7 +313,7 @@ pub fn run(args: &Args) -> ! {
     ev.set(
         "rule",
         format!(
-            "reference = the Sink event stream (begin, matched/context with bytes, line number, absolute offset, context_break, finish byte count) of search_slice. Compared against: search_reader with roll-buffer capacity in {:?} (hook) x EVERY composition of the input length as the sequence of read() return sizes (inputs up to length {}; five fixed fragmentations for the long family), heap limits 1..len+2 (error allowed only while the limit is below len+1, delivered events must then be a prefix), Interrupted injected at every read index on the multi-line reader path, search_path with MmapChoice::auto and never, search_file. Inputs: every byte string over {{m,x,terminator}} (+\\r under CRLF) up to length {:?} plus four long inputs of 30-62 bytes; configurations: (A,B) in 0..2 squared, passthru, invert, line numbers, stop_on_nonmatch, LF/CRLF/NUL, multi_line requested (with matchers that cannot match the terminator: line strategy; with one that can: true multi-line strategy); matcher line paths fast/candidate/slow/grep-regex. Binary detection off. distinct_nontrivial = distinct (configuration, matcher, input) triples whose reference delivers at least one line.",
+            "reference = the Sink event stream (begin, matched/context with bytes, line number, absolute offset, context_break, finish byte count) of search_slice. Compared against: search_reader with roll-buffer capacity in {:?} (hook) x EVERY composition of the input length as the sequence of read() return sizes (inputs up to length {}; five fixed fragmentations for the long family), heap limits 1..len+2 (error allowed only while the limit is below len+1, delivered events must then be a prefix), Interrupted injected at every read index on the multi-line reader path, search_path with MmapChoice::auto and never, search_file. Inputs: every byte string over {{m,x,terminator}} (+\\r under CRLF) up to length {:?} plus four long inputs of 30-62 bytes; configurations: (A,B) in 0..2 squared, passthru, invert, line numbers, stop_on_nonmatch, LF/CRLF/NUL, multi_line requested (with matchers that cannot match the terminator: line strategy; with one that can: true multi-line strategy); matcher line paths fast/candidate/slow/grep-regex, and under CRLF a grep-regex matcher built as `rg -U --crlf` builds it for a pattern that can match \\r but not \\n; every search with the multi-line request on a matcher that cannot match the terminator is also compared with the same search without the request. Binary detection off. distinct_nontrivial = distinct (configuration, matcher, input) triples whose reference delivers at least one line.",
             caps, tier.pick(5, 7), lens
         ),
     );
